@@ -2,25 +2,11 @@
 from pyvc.api import (At, Clause, Loop, Raise, assumed, contract, inline, model, prim, shared_dict,
                       shared_list, spec_module)
 from pyvc.types import TNone, TUnion, define_type, parse_type
+import contracts.matcher_types
 import contracts.info
 import spec.schema as SS
 
-VI = 'Ref[info.ValueInfo]'
-PYVAL = 'Opaque[PyVal]'
-model('matcher.SectionValue', fields={'_name': 'Opt[str]', '_matcher': 'Ref[matcher.BaseMatcher]',
-                                      '_attributes': 'Seq[str]', '_dict': 'Map[str, Slot]'})
-define_type('Item', TUnion('Item', [('vi', parse_type(VI)), ('sv', parse_type('Ref[matcher.SectionValue]')),
-                                    ('pv', parse_type(PYVAL))]))
-# lists are heterogeneous in Python: one list alternative whose elements are tagged
-define_type('VP', TUnion('VP', [('vi', parse_type(VI)), ('pv', parse_type(PYVAL))]))
-define_type('MItem', TUnion('MItem', [('vi', parse_type(VI)), ('pv', parse_type(PYVAL)),
-                                      ('lst', parse_type('Seq[VP]'))]))
-# what a matcher keeps per attribute: nothing yet | one value | one section | a converted value |
-# a list (multikey / multisection) | a mapping (wildcard key)
-define_type('Slot', TUnion('Slot', [('none', TNone), ('vi', parse_type(VI)),
-                                    ('sv', parse_type('Ref[matcher.SectionValue]')), ('pv', parse_type(PYVAL)),
-                                    ('lst', parse_type('Seq[Item]')), ('kmap', parse_type('Map[str, MItem]'))]))
-
+from contracts.matcher_types import VI, PYVAL
 shared_list('handlers', 'Tuple[str, %s]' % PYVAL)
 
 MI = [Clause('invariant_of(self.type)', label='RI-of-the-section-type'),
@@ -146,3 +132,19 @@ contract('matcher.BaseMatcher.createChildMatcher',
          raises=[Raise('ZConfig.ConfigurationError',
                        when='%s < 0 or not allowed_name(self.type._children[%s][1].name, name)' % (CSLOT, CSLOT),
                        carries='C01,C12', label='no-slot-or-name-not-allowed')])
+
+# ---- closing a container --------------------------------------------------------------------------------------
+contract('matcher.BaseMatcher.createValue', returns='Ref[matcher.SectionValue]', fresh_result=True,
+         ensures=[Clause('fresh(result) and result._matcher == self and result._name is None', carries='C02'),
+                  Clause('result._dict == self._values and result._attributes == keys(self._values)',
+                         carries='C02', label='exposes-exactly-the-attributes')])
+contract('matcher.SectionMatcher.createValue', returns='Ref[matcher.SectionValue]', fresh_result=True,
+         ensures=[Clause('fresh(result) and result._matcher == self and result._name == self.name', carries='C02',
+                         label='reports-its-name'),
+                  Clause('result._dict == self._values and result._attributes == keys(self._values)',
+                         carries='C02', label='exposes-exactly-the-attributes')])
+contract('matcher.SectionValue.__init__',
+         params={'values': 'Map[str, Slot]', 'name': 'Opt[str]', 'matcher': 'Ref[matcher.BaseMatcher]'},
+         ensures=[Clause('self._dict == values and self._attributes == keys(values)', carries='C02',
+                         label='exposes-exactly-the-attributes'),
+                  Clause('self._name == name and self._matcher == matcher', carries='C02')])
